@@ -130,3 +130,99 @@ def func_params(fn: ast.AST) -> List[str]:
 
 def key(fi: FuncInfo, construct: str) -> str:
     return f"{fi.module.short}::{fi.qualname}::{construct}"
+
+
+# --------------------------------------------------------------------------- name-agnostic matching
+import re as _re
+
+_HOLE = _re.compile(r"(«[A-Za-z_][A-Za-z0-9_]*»)")
+_IDENT = r"[A-Za-z_][A-Za-z0-9_]*"
+
+
+def pmatch(pattern: str, text: str, b: Optional[dict] = None) -> Optional[dict]:
+    """match `text` against `pattern` whose holes «X» stand for identifiers (local variable
+    names of the analysed code); the same hole must bind the same identifier everywhere.
+    Returns the extended bindings or None.  «_» is an anonymous identifier."""
+    b = dict(b or {})
+    rx = ""
+    seen = set()
+    for part in _HOLE.split(pattern):
+        if _HOLE.fullmatch(part):
+            n = part[1:-1]
+            if n == "_":
+                rx += _IDENT
+            elif n in b:
+                rx += _re.escape(b[n])
+            elif n in seen:
+                rx += f"(?P={n})"
+            else:
+                rx += f"(?P<{n}>{_IDENT})"
+                seen.add(n)
+        else:
+            rx += _re.escape(part)
+    m = _re.fullmatch(rx, text)
+    if not m:
+        return None
+    b.update(m.groupdict())
+    return b
+
+
+def pfind(pattern: str, texts, b: Optional[dict] = None):
+    """first text matching the pattern -> (text, bindings) or (None, None)"""
+    for t in texts:
+        r = pmatch(pattern, t, b)
+        if r is not None:
+            return t, r
+    return None, None
+
+
+def pin(pattern: str, text: str, b: Optional[dict] = None) -> Optional[dict]:
+    """pattern occurs somewhere inside text (holes as in pmatch)"""
+    b = dict(b or {})
+    rx = ""
+    seen = set()
+    for part in _HOLE.split(pattern):
+        if _HOLE.fullmatch(part):
+            n = part[1:-1]
+            if n == "_":
+                rx += _IDENT
+            elif n in b:
+                rx += _re.escape(b[n])
+            elif n in seen:
+                rx += f"(?P={n})"
+            else:
+                rx += f"(?P<{n}>{_IDENT})"
+                seen.add(n)
+        else:
+            rx += _re.escape(part)
+    m = _re.search(r"(?<![A-Za-z0-9_])" + rx if rx[:1] != "\\" and pattern[:1] == "«" else rx, text)
+    if not m:
+        return None
+    b.update(m.groupdict())
+    return b
+
+
+def local_env(fn: ast.AST) -> Dict[str, ast.AST]:
+    """single-assignment locals of a function: name -> value expression (first binding)"""
+    out: Dict[str, ast.AST] = {}
+    for st in walk_no_nested(fn):
+        if isinstance(st, ast.Assign) and len(st.targets) == 1 and isinstance(st.targets[0], ast.Name):
+            out.setdefault(st.targets[0].id, st.value)
+        elif isinstance(st, ast.AnnAssign) and isinstance(st.target, ast.Name) and st.value is not None:
+            out.setdefault(st.target.id, st.value)
+    return out
+
+
+def inline_locals(e: ast.AST, env: Dict[str, ast.AST], depth: int = 3) -> ast.AST:
+    """replace local names by their (single) defining expressions: makes a text independent of local names"""
+    import copy
+
+    class T(ast.NodeTransformer):
+        def __init__(self, d):
+            self.d = d
+
+        def visit_Name(self, node):
+            if isinstance(node.ctx, ast.Load) and node.id in env and self.d > 0:
+                return T(self.d - 1).visit(copy.deepcopy(env[node.id]))
+            return node
+    return T(depth).visit(copy.deepcopy(e))
